@@ -85,6 +85,7 @@ type Options struct {
 }
 
 type Exec struct {
+	logFrom    int // call-log queries only see records from this index on (per-iteration clauses of loops)
 	splitHints []*Term // conditions worth a case split when proving (e.g. append fits / reallocates)
 	ld          *Loaded
 	top         *ssa.Function
@@ -793,6 +794,7 @@ func (ex *Exec) execLoop(fr *Frame, loops map[*ssa.BasicBlock]*loopInfo, li *loo
 			measure = ex.eval(ex.envAt(fr, headSt, h), lc.Decreases)
 		}
 		ctx := &loopCtx{}
+		logAtHead := len(ex.callLog)
 		exits := ex.runRegion(fr, loops, li.blocks, h, []edgeSt{{nil, h, st}}, ctx)
 		// discover writes
 		grew := false
@@ -872,6 +874,20 @@ func (ex *Exec) execLoop(fr *Frame, loops map[*ssa.BasicBlock]*loopInfo, li *loo
 				ex.oblige(fr, e.st, "loop", lname+".preserve:"+inv.Label, pos, inv.Src, g)
 				// later invariants of this loop are proved under the earlier ones (assert, then assume)
 				ex.assume(e.st, g)
+			}
+			// per-iteration clauses: about the calls recorded since the loop head
+			for _, it := range lc.Iters {
+				env := ex.envAt(fr, e.st, h)
+				env.over = over
+				env.phiOver = map[ssa.Value]Val{}
+				for _, phi := range phis {
+					env.phiOver[phi] = over[strings.ReplaceAll(phi.Comment, ".", "_")]
+				}
+				saved := ex.logFrom
+				ex.logFrom = logAtHead
+				g := ex.evalBool(env, it.E)
+				ex.logFrom = saved
+				ex.oblige(fr, e.st, "loop", lname+".iteration:"+it.Label, pos, it.Src, g)
 			}
 			{
 				saved := map[*ssa.Phi]Val{}
